@@ -11,7 +11,7 @@ import (
 
 func (e *Engine) newUnit(fn *ssa.Function, name string) *Unit {
 	return &Unit{eng: e, u: e.u, fn: fn, name: name, heapSort: map[string]Sort{}, ord: map[string]int{}, notes: map[string]bool{},
-		declared: map[string]bool{}, heapType: map[string]types.Type{}, epochJoin: map[int][]epochArm{}, reveals: map[string]bool{}, revealed: map[string]bool{}, defMemo: map[string]string{}, ifacePay: map[string]Term{}}
+		declared: map[string]bool{}, heapType: map[string]types.Type{}, epochJoin: map[int][]epochArm{}, reveals: map[string]bool{}, freshRefs: map[string]bool{}, revealed: map[string]bool{}, defMemo: map[string]string{}, ifacePay: map[string]Term{}}
 }
 
 func unitName(fn *ssa.Function) string { return unitNameS(fn.String()) }
